@@ -557,3 +557,25 @@ pub fn run(o: &Opts) -> i32 {
 
 #[allow(dead_code)]
 fn _unused(_: ReceivedMessage) {}
+
+/// C04's provider-error part: the same sweep with the identity provider's calls counted as well; failures are
+/// appended to the C04 failure file and the counters are printed with a `faults_` prefix.
+pub fn run_c04_faults(o: &Opts) -> i32 {
+    let dir = o.str("out", "/verif/work/c04");
+    let mut rng = Rng::new(o.seed() ^ 0xC04);
+    let mut out = Out { fails: vec![], injected: 0, ops: 0, cover: Default::default(), by_call: Default::default(), samples: vec![] };
+    let mk = |s: &Setup, hd: &Handles, id, sk| mk_client(s, hd, id, sk);
+    let variants = o.u64("variants", if o.thorough() { 8 } else { 2 });
+    run_sweeps(&mut rng, &mk, &mut out, &["id.", "storage.", "kp.", "psk."], false, variants);
+    println!("faults_injected {}", out.injected);
+    println!("faulted_calls {}", out.by_call.iter().map(|(k, v)| format!("{k}={v}")).collect::<Vec<_>>().join(","));
+    println!("fault_oracle_failures {}", out.fails.len());
+    use std::io::Write;
+    if let Ok(mut f) = std::fs::OpenOptions::new().append(true).open(format!("{dir}/c04.failures")) {
+        for l in out.fails.iter().take(200) {
+            let _ = writeln!(f, "C04: {l}");
+        }
+    }
+    let _ = std::fs::remove_dir_all("/tmp/vharness-scratch-c15");
+    0
+}
